@@ -1,11 +1,14 @@
 // C17 harness: random finalized histories over several assets on a real Badger
-// store.  A history starts from a LoadGenesis allocation of XIN; transfers and
-// withdrawal submissions are signed with real keys and admitted through the
-// repository's own Validate + LockInputs + WriteTransaction; deposits, mints,
-// withdrawal claims and node pledges are valid by construction (their
-// validation needs custodian / kernel state outside this property: one input,
-// outputs summing to the deposited / minted amount, inputs unspent and of one
-// asset).  Batches are finalized with WriteSnapshot, sometimes presenting
+// store.  A history starts from LoadGenesis (XIN allocations, a node, the
+// custodian).  EVERY later transaction - deposits and withdrawal claims signed
+// by the custodian, mints, signed transfers, withdrawal submissions, node
+// pledges - is admitted only through the repository's own Validate against the
+// real store, then LockInputs + WriteTransaction; what Validate refuses is never
+// finalized.  Besides the honest shapes the generator presents correctly signed,
+// amount-balanced transactions of every kind carrying, at each output index in
+// turn, an extra output of every other type code (script, withdrawal submit /
+// claim, node pledge / accept / remove / cancel, custodian update / slash, an
+// unknown code).  Batches are finalized with WriteSnapshot, sometimes presenting
 // already finalized members again.  Oracle (property text): after every
 // snapshot, for every asset, ReadAssetWithBalance = genesis + finalized deposits
 // + finalized mints - finalized withdrawal submissions = sum of the output
@@ -13,9 +16,11 @@
 package main
 
 import (
+	"bytes"
 	"encoding/hex"
 	"fmt"
 	"math/big"
+	"sort"
 
 	"github.com/MixinNetwork/mixin/common"
 	"github.com/MixinNetwork/mixin/crypto"
@@ -112,7 +117,9 @@ func checkSupply(c *vh.Ctx, cs Case, st *fin.Store, at string) (map[crypto.Hash]
 		if s.total.Cmp(s.flow) != 0 {
 			c.Fail("total-differs-from-flow", fmt.Sprintf("%s: asset %s recorded total %s, genesis+deposits+mints-withdrawals = %s", at, a, s.total, s.flow), cs)
 		}
-		if s.total.Cmp(s.unconsumed) != 0 {
+		if s.total.Cmp(s.unconsumed) > 0 {
+			c.Fail("value-vanished", fmt.Sprintf("%s: asset %s recorded total %s but the outputs not consumed by a finalized transaction sum to %s: an accepted and finalized transaction carried value that is neither an output record nor subtracted", at, a, s.total, s.unconsumed), cs)
+		} else if s.total.Cmp(s.unconsumed) != 0 {
 			c.Fail("total-differs-from-unconsumed", fmt.Sprintf("%s: asset %s recorded total %s, unconsumed outputs sum to %s", at, a, s.total, s.unconsumed), cs)
 		}
 		if s.total.Sign() < 0 {
@@ -188,23 +195,46 @@ type ptx struct {
 	node string // the node whose snapshot finalized it
 }
 
+// abstract shape of one output before keys are derived
+type shapeOut struct {
+	typ uint8
+	amt *big.Int
+}
+
+// a transaction before its outputs are materialized
+type draft struct {
+	kind   string
+	asset  string
+	inputs []fin.InSpec
+	taken  []out
+	shape  []shapeOut
+	extra  string
+	refs   []string
+	sign   []string
+}
+
+var typeCodes = []uint8{common.OutputTypeScript, common.OutputTypeWithdrawalSubmit, common.OutputTypeNodePledge,
+	common.OutputTypeNodeAccept, common.OutputTypeNodeRemove, common.OutputTypeWithdrawalClaim, common.OutputTypeNodeCancel,
+	common.OutputTypeCustodianUpdateNodes, common.OutputTypeCustodianSlashNodes, 0x77}
+
 type Gen struct {
-	se      *Session
-	r       *vh.Rand
-	seeds   []string
-	assets  []string
-	known   map[string]bool
-	avail   map[string][]out
-	pending []*ptx
-	done    []*ptx
-	nodes   []string
-	refs    map[string][2]string
-	topo    uint64
-	ts      uint64
-	depN    int
-	mintN   uint64
-	submits []string
-	pledged bool
+	se       *Session
+	r        *vh.Rand
+	seeds    []string
+	custSeed string
+	assets   []string
+	known    map[string]bool
+	avail    map[string][]out
+	pending  []*ptx
+	done     []*ptx
+	nodes    []string
+	refs     map[string][2]string
+	topo     uint64
+	ts       uint64
+	depN     int
+	mintN    uint64
+	submits  []string
+	pledged  bool
 }
 
 func units(v *big.Int) string { return v.String() }
@@ -218,8 +248,8 @@ func (g *Gen) amount(maxWhole int) *big.Int {
 	return v
 }
 
-// an output to account `owner`, with real ghost keys so that it can be spent by signature
-func (g *Gen) ownedOut(owner int, amt *big.Int, index int) fin.OutSpec {
+// an output of type typ to account `owner`, with real ghost keys (fresh randomness every time)
+func (g *Gen) ownedOut(owner int, typ uint8, amt *big.Int, index int) fin.OutSpec {
 	acc := fin.Account(g.seeds[owner])
 	seed := g.r.Bytes(64)
 	tmp := common.NewTransactionV5(common.XINAssetId)
@@ -228,11 +258,74 @@ func (g *Gen) ownedOut(owner int, amt *big.Int, index int) fin.OutSpec {
 	}
 	tmp.AddScriptOutput([]*common.Address{acc}, common.NewThresholdScript(1), common.VerifIntegerFromBig(amt), seed)
 	o := tmp.Outputs[index]
-	spec := fin.OutSpec{Type: common.OutputTypeScript, Amount: units(amt), Script: hex.EncodeToString(o.Script), Mask: hex.EncodeToString(o.Mask[:])}
+	spec := fin.OutSpec{Type: typ, Amount: units(amt), Script: hex.EncodeToString(o.Script), Mask: hex.EncodeToString(o.Mask[:])}
 	for _, k := range o.Keys {
 		spec.Keys = append(spec.Keys, hex.EncodeToString(k[:]))
 	}
 	return spec
+}
+
+// materialize derives fresh keys for every output of the shape
+func (g *Gen) materialize(d draft) fin.TxSpec {
+	spec := fin.TxSpec{Asset: d.asset, Inputs: d.inputs, Extra: d.extra, Refs: d.refs, Sign: d.sign}
+	for i, so := range d.shape {
+		switch so.typ {
+		case common.OutputTypeWithdrawalSubmit, common.OutputTypeWithdrawalClaim, common.OutputTypeNodePledge,
+			common.OutputTypeNodeCancel, common.OutputTypeNodeAccept:
+			// kernel outputs carry no keys, script or mask (anything else is refused on sight)
+			spec.Outputs = append(spec.Outputs, fin.OutSpec{Type: so.typ, Amount: units(so.amt)})
+		default:
+			spec.Outputs = append(spec.Outputs, g.ownedOut(g.r.Intn(3), so.typ, so.amt, i))
+		}
+	}
+	return spec
+}
+
+// withExtra inserts an output of type typ at index at; its value is taken from the largest other output
+func withExtra(d draft, typ uint8, at int) (draft, bool) {
+	donor := -1
+	for i, so := range d.shape {
+		if so.amt.Cmp(big.NewInt(20000)) >= 0 && (donor < 0 || so.amt.Cmp(d.shape[donor].amt) > 0) {
+			donor = i
+		}
+	}
+	if donor < 0 {
+		return d, false
+	}
+	x := new(big.Int).Div(d.shape[donor].amt, big.NewInt(3))
+	var shape []shapeOut
+	for i, so := range d.shape {
+		if i == at {
+			shape = append(shape, shapeOut{typ, x})
+		}
+		if i == donor {
+			so = shapeOut{so.typ, new(big.Int).Sub(so.amt, x)}
+		}
+		shape = append(shape, so)
+	}
+	if at >= len(d.shape) {
+		shape = append(shape, shapeOut{typ, x})
+	}
+	d.shape = shape
+	d.kind = fmt.Sprintf("%s+%02x@%d", d.kind, typ, at)
+	return d, true
+}
+
+func (g *Gen) custodianExtra() string {
+	cur := fin.Account(g.custSeed)
+	network := crypto.Blake3Hash([]byte("verif-network"))
+	var nodes [][]byte
+	for i := 0; i < 7; i++ {
+		c, p, s := fin.Account(hex.EncodeToString(g.r.Bytes(64))), fin.Account(hex.EncodeToString(g.r.Bytes(64))), fin.Account(hex.EncodeToString(g.r.Bytes(64)))
+		nodes = append(nodes, common.EncodeCustodianNode(c, p, &s.PrivateSpendKey, &p.PrivateSpendKey, &c.PrivateSpendKey, network))
+	}
+	sort.Slice(nodes, func(i, j int) bool { return bytes.Compare(nodes[i][1:33], nodes[j][1:33]) < 0 })
+	extra := append(append([]byte{}, cur.PublicSpendKey[:]...), cur.PublicViewKey[:]...)
+	for _, n := range nodes {
+		extra = append(extra, n...)
+	}
+	sig := cur.PrivateSpendKey.Sign(crypto.Blake3Hash(extra))
+	return hex.EncodeToString(append(extra, sig[:]...))
 }
 
 func newGen(se *Session, r *vh.Rand) *Gen {
@@ -240,20 +333,25 @@ func newGen(se *Session, r *vh.Rand) *Gen {
 	for i := 0; i < 3; i++ {
 		g.seeds = append(g.seeds, hex.EncodeToString(r.Bytes(64)))
 	}
+	g.custSeed = hex.EncodeToString(r.Bytes(64))
 	xin := hexH(common.XINAssetId)
 	g.assets = []string{xin, hexH(common.BitcoinAssetId), hexH(common.EthereumAssetId), hexH(crypto.Blake3Hash(r.Bytes(8)))}
-	// genesis: a few XIN allocations, then a node accept (LoadGenesis wants a consensus transaction last)
+	// genesis: XIN allocations, a node accept, and the custodian (LoadGenesis wants a consensus transaction last)
 	var gen []fin.GenEntry
 	n := r.Range(2, 4)
-	for i := 0; i <= n; i++ {
+	for i := 0; i <= n+1; i++ {
 		spec := fin.TxSpec{Asset: xin, Inputs: []fin.InSpec{{Kind: "genesis", TxID: fmt.Sprintf("genesis-%d", i)}}}
-		if i < n {
+		switch {
+		case i < n:
 			for j, m := 0, r.Range(1, 3); j < m; j++ {
-				spec.Outputs = append(spec.Outputs, g.ownedOut(r.Intn(3), g.amount(20000), j))
+				spec.Outputs = append(spec.Outputs, g.ownedOut(r.Intn(3), common.OutputTypeScript, g.amount(20000), j))
 			}
-		} else {
+		case i == n:
 			spec.Outputs = []fin.OutSpec{{Type: common.OutputTypeNodeAccept, Amount: units(new(big.Int).Mul(big.NewInt(13439), e8))}}
 			spec.Extra = hex.EncodeToString(r.Bytes(64))
+		default:
+			spec.Outputs = []fin.OutSpec{g.ownedOut(0, common.OutputTypeCustodianUpdateNodes, new(big.Int).Mul(big.NewInt(100), e8), 0)}
+			spec.Extra = g.custodianExtra()
 		}
 		h := hexH(spec.Build().PayloadHash())
 		node := hexH(crypto.Blake3Hash(r.Bytes(16)))
@@ -261,7 +359,8 @@ func newGen(se *Session, r *vh.Rand) *Gen {
 		g.done = append(g.done, &ptx{spec, h, node})
 		g.track(spec, h)
 	}
-	g.topo = uint64(n)
+	g.topo = uint64(n + 1)
+	g.ts += 10
 	if se.Do(fin.OpSpec{Kind: "genesis", Genesis: gen}) != "ok" {
 		panic("genesis refused")
 	}
@@ -272,15 +371,30 @@ func newGen(se *Session, r *vh.Rand) *Gen {
 		g.nodes = append(g.nodes, node)
 		se.Do(fin.OpSpec{Kind: "round", Node: node})
 	}
-	for i := 0; i < nn; i++ {
+	for i := 0; i < nn-1; i++ { // the last node stays in round 0 (it is the external reference of the others)
 		rs, re := hexH(crypto.Blake3Hash(r.Bytes(16))), g.nodes[(i+1)%nn]
-		if i == nn-1 {
-			break // the last node stays in round 0 (it is the external reference of the others)
-		}
 		g.refs[g.nodes[i]] = [2]string{rs, re}
 		se.Do(fin.OpSpec{Kind: "round", Node: g.nodes[i], Round: 1, RefSelf: rs, RefExt: re})
 	}
 	return g
+}
+
+func keyPtr(k crypto.Key) *crypto.Key { return &k }
+
+func (g *Gen) ownerOf(spec fin.TxSpec, i int) int {
+	o := spec.Outputs[i]
+	if len(o.Keys) != 1 || o.Mask == "" {
+		return -1
+	}
+	for ai, sd := range g.seeds {
+		acc := fin.Account(sd)
+		mask := fin.K(o.Mask)
+		k := crypto.ViewGhostOutputKey(keyPtr(fin.K(o.Keys[0])), &acc.PrivateViewKey, &mask, uint64(i))
+		if *k == acc.PublicSpendKey {
+			return ai
+		}
+	}
+	return -1
 }
 
 // track records the spendable outputs of a transaction that is (about to be) finalized
@@ -290,28 +404,15 @@ func (g *Gen) track(spec fin.TxSpec, h string) {
 			continue
 		}
 		amt, _ := new(big.Int).SetString(o.Amount, 10)
-		owner := -1
-		for ai, sd := range g.seeds {
-			acc := fin.Account(sd)
-			if len(o.Keys) == 1 && o.Mask != "" {
-				mask := fin.K(o.Mask)
-				k := crypto.ViewGhostOutputKey(keyPtr(fin.K(o.Keys[0])), &acc.PrivateViewKey, &mask, uint64(i))
-				if *k == acc.PublicSpendKey {
-					owner = ai
-				}
-			}
-		}
-		g.avail[spec.Asset] = append(g.avail[spec.Asset], out{h, uint(i), amt, owner})
+		g.avail[spec.Asset] = append(g.avail[spec.Asset], out{h, uint(i), amt, g.ownerOf(spec, i)})
 	}
 }
-
-func keyPtr(k crypto.Key) *crypto.Key { return &k }
 
 func (g *Gen) take(asset string, owner int) (out, bool) {
 	l := g.avail[asset]
 	for tries := 0; tries < 8 && len(l) > 0; tries++ {
 		i := g.r.Intn(len(l))
-		if owner >= 0 && l[i].owner != owner {
+		if l[i].owner < 0 || (owner >= 0 && l[i].owner != owner) {
 			continue
 		}
 		o := l[i]
@@ -321,64 +422,45 @@ func (g *Gen) take(asset string, owner int) (out, bool) {
 	return out{}, false
 }
 
-// spend: 1..2 inputs of one owner, first output of type ft, change back to random accounts
-func (g *Gen) spend(asset string, ft uint8, extra string, refs []string) (fin.TxSpec, bool) {
+func (g *Gen) giveBack(d draft) {
+	g.avail[d.asset] = append(g.avail[d.asset], d.taken...)
+}
+
+// spendDraft: inputs of one owner (one when single), first output of type ft, change to random accounts
+func (g *Gen) spendDraft(kind, asset string, ft uint8, single bool) (draft, bool) {
 	first, ok := g.take(asset, -1)
-	if !ok || first.owner < 0 {
-		if ok {
-			g.avail[asset] = append(g.avail[asset], first)
-		}
-		return fin.TxSpec{}, false
+	if !ok {
+		return draft{}, false
 	}
-	spec := fin.TxSpec{Asset: asset, Extra: extra, Refs: refs, Sign: []string{g.seeds[first.owner]}}
+	d := draft{kind: kind, asset: asset, sign: []string{g.seeds[first.owner]}, taken: []out{first}}
 	sum := new(big.Int).Set(first.amt)
-	spec.Inputs = append(spec.Inputs, fin.InSpec{Kind: "ord", Hash: first.hash, Index: first.index})
-	if g.r.Bool() {
+	d.inputs = append(d.inputs, fin.InSpec{Kind: "ord", Hash: first.hash, Index: first.index})
+	if !single && g.r.Bool() {
 		if o, ok := g.take(asset, first.owner); ok {
-			spec.Inputs = append(spec.Inputs, fin.InSpec{Kind: "ord", Hash: o.hash, Index: o.index})
+			d.inputs = append(d.inputs, fin.InSpec{Kind: "ord", Hash: o.hash, Index: o.index})
+			d.taken = append(d.taken, o)
 			sum.Add(sum, o.amt)
 		}
 	}
+	if single {
+		d.shape = []shapeOut{{ft, sum}}
+		return d, true
+	}
 	head := new(big.Int).Set(sum)
-	if sum.Cmp(big.NewInt(4)) >= 0 && g.r.Chance(3, 4) {
+	if sum.Cmp(big.NewInt(40000)) >= 0 && (ft != common.OutputTypeScript || g.r.Chance(3, 4)) {
 		head.Div(sum, big.NewInt(int64(g.r.Range(2, 4))))
 	}
-	if ft == common.OutputTypeScript {
-		spec.Outputs = append(spec.Outputs, g.ownedOut(g.r.Intn(3), head, 0))
-	} else {
-		spec.Outputs = append(spec.Outputs, fin.OutSpec{Type: ft, Amount: units(head)})
-	}
+	d.shape = append(d.shape, shapeOut{ft, head})
 	rest := new(big.Int).Sub(sum, head)
-	if rest.Sign() > 0 && g.r.Bool() && rest.Cmp(big.NewInt(2)) >= 0 {
+	if rest.Cmp(big.NewInt(2)) >= 0 && g.r.Bool() {
 		half := new(big.Int).Div(rest, big.NewInt(2))
-		spec.Outputs = append(spec.Outputs, g.ownedOut(g.r.Intn(3), half, len(spec.Outputs)))
+		d.shape = append(d.shape, shapeOut{common.OutputTypeScript, half})
 		rest.Sub(rest, half)
 	}
 	if rest.Sign() > 0 {
-		spec.Outputs = append(spec.Outputs, g.ownedOut(g.r.Intn(3), rest, len(spec.Outputs)))
+		d.shape = append(d.shape, shapeOut{common.OutputTypeScript, rest})
 	}
-	return spec, true
-}
-
-func (g *Gen) byConstruction(spec fin.TxSpec) {
-	hasOrd := false
-	for _, in := range spec.Inputs {
-		hasOrd = hasOrd || in.Kind == "ord"
-	}
-	if hasOrd && g.se.Do(fin.OpSpec{Kind: "lock", Tx: &spec}) != "ok" {
-		return
-	}
-	if g.se.Do(fin.OpSpec{Kind: "write", Tx: &spec}) == "ok" {
-		g.pending = append(g.pending, &ptx{spec, hexH(spec.Build().PayloadHash()), ""})
-	}
-}
-
-func (g *Gen) validated(spec fin.TxSpec) bool {
-	if g.se.Do(fin.OpSpec{Kind: "validated", Tx: &spec, TS: g.ts}) == "ok" {
-		g.pending = append(g.pending, &ptx{spec, hexH(spec.Build().PayloadHash()), ""})
-		return true
-	}
-	return false
+	return d, true
 }
 
 func (g *Gen) room(asset string) *big.Int {
@@ -388,8 +470,7 @@ func (g *Gen) room(asset string) *big.Int {
 		panic(err)
 	}
 	room := new(big.Int).Sub(fin.Big(common.GetAssetCapacity(a)), fin.Big(bal))
-	// leave space for the other pending deposits / mints of this asset
-	for _, p := range g.pending {
+	for _, p := range g.pending { // leave space for the other pending deposits / mints of this asset
 		if p.spec.Asset == asset && (p.spec.Inputs[0].Kind == "deposit" || p.spec.Inputs[0].Kind == "mint") {
 			amt, _ := new(big.Int).SetString(p.spec.Inputs[0].Amount, 10)
 			room.Sub(room, amt)
@@ -398,100 +479,214 @@ func (g *Gen) room(asset string) *big.Int {
 	return room
 }
 
-func (g *Gen) newTx() {
+// honest drafts of every kind -------------------------------------------------------------------
+
+func (g *Gen) depositDraft(asset string) (draft, bool) {
+	amt := g.amount(60)
+	room := g.room(asset)
+	if room.Cmp(big.NewInt(100000)) < 0 {
+		return draft{}, false
+	}
+	if amt.Cmp(room) >= 0 {
+		amt.Sub(room, big.NewInt(1)) // right below the capacity
+	}
+	g.depN++
+	akey := "0xkey" + asset[:6]
+	if asset == g.assets[0] {
+		akey = common.XINAsset.AssetKey
+	}
+	return draft{kind: "deposit", asset: asset, sign: []string{g.custSeed},
+		inputs: []fin.InSpec{{Kind: "deposit", Chain: hexH(common.EthereumAssetId), AKey: akey, TxID: fmt.Sprintf("0xdep%d", g.depN), DIndex: uint64(g.depN), Amount: units(amt)}},
+		shape:  []shapeOut{{common.OutputTypeScript, amt}}}, true
+}
+
+func (g *Gen) mintDraft() (draft, bool) {
+	asset := g.assets[0]
+	amt := g.amount(30)
+	if amt.Cmp(g.room(asset)) >= 0 {
+		return draft{}, false
+	}
+	g.mintN++
+	half := new(big.Int).Div(amt, big.NewInt(2))
+	return draft{kind: "mint", asset: asset, sign: []string{g.seeds[0]},
+		inputs: []fin.InSpec{{Kind: "mint", Batch: g.mintN, Amount: units(amt)}},
+		shape:  []shapeOut{{common.OutputTypeScript, half}, {common.OutputTypeScript, new(big.Int).Sub(amt, half)}}}, true
+}
+
+func (g *Gen) claimDraft() (draft, bool) {
+	if len(g.submits) == 0 {
+		return draft{}, false
+	}
+	d, ok := g.spendDraft("claim", g.assets[0], common.OutputTypeWithdrawalClaim, false)
+	if !ok {
+		return d, false
+	}
+	payload := g.r.Bytes(g.r.Range(1, 30))
+	sig := fin.Account(g.custSeed).PrivateSpendKey.Sign(crypto.Blake3Hash(payload))
+	d.extra = hex.EncodeToString(append(sig[:], payload...))
+	d.refs = []string{g.submits[g.r.Intn(len(g.submits))]}
+	return d, true
+}
+
+func (g *Gen) pledgeDraft() (draft, bool) {
+	d, ok := g.spendDraft("pledge", g.assets[0], common.OutputTypeNodePledge, true)
+	if !ok {
+		return d, false
+	}
+	signer, payee := fin.Account(hex.EncodeToString(g.r.Bytes(64))), fin.Account(hex.EncodeToString(g.r.Bytes(64)))
+	d.extra = hex.EncodeToString(append(append([]byte{}, signer.PublicSpendKey[:]...), payee.PublicSpendKey[:]...))
+	return d, true
+}
+
+func (g *Gen) honestDraft(kind string) (draft, bool) {
 	asset := g.assets[g.r.Intn(len(g.assets))]
-	switch k := g.r.Intn(14); {
-	case !g.known[asset] || k < 3: // deposit: one input, one output of the deposited amount
-		amt := g.amount(60)
-		room := g.room(asset)
-		if room.Cmp(big.NewInt(2)) < 0 {
-			return
+	switch kind {
+	case "deposit":
+		return g.depositDraft(asset)
+	case "mint":
+		return g.mintDraft()
+	case "transfer":
+		return g.spendDraft("transfer", asset, common.OutputTypeScript, false)
+	case "submit":
+		return g.spendDraft("submit", asset, common.OutputTypeWithdrawalSubmit, false)
+	case "claim":
+		return g.claimDraft()
+	case "pledge":
+		return g.pledgeDraft()
+	}
+	panic(kind)
+}
+
+// admit presents the transaction to Validate; true when it is now written and pending
+func (g *Gen) admit(d draft) *ptx {
+	spec := g.materialize(d)
+	g.se.c.Count("presented:" + d.kind[:min(len(d.kind), 40)])
+	if g.se.Do(fin.OpSpec{Kind: "validated", Tx: &spec, TS: g.ts}) != "ok" {
+		g.giveBack(d)
+		return nil
+	}
+	p := &ptx{spec, hexH(spec.Build().PayloadHash()), ""}
+	g.pending = append(g.pending, p)
+	if d.asset != "" && len(d.inputs) > 0 && d.inputs[0].Kind == "deposit" {
+		g.known[d.asset] = true
+	}
+	return p
+}
+
+var kinds = []string{"deposit", "deposit", "mint", "transfer", "transfer", "transfer", "transfer", "submit", "submit", "claim", "pledge"}
+
+func (g *Gen) newTx() {
+	kind := kinds[g.r.Intn(len(kinds))]
+	if kind == "pledge" && g.pledged {
+		return
+	}
+	d, ok := g.honestDraft(kind)
+	if !ok {
+		if d2, ok2 := g.depositDraft(g.assets[g.r.Intn(len(g.assets))]); ok2 { // nothing spendable: fund
+			g.admit(d2)
 		}
-		if amt.Cmp(room) >= 0 {
-			amt.Sub(room, big.NewInt(1)) // right below the capacity
+		return
+	}
+	if g.r.Chance(1, 12) { // an unbalanced or foreign-signed attempt: Validate must refuse
+		if g.r.Bool() {
+			d.shape[0].amt = new(big.Int).Add(d.shape[0].amt, big.NewInt(int64(g.r.Range(1, 1000))))
+		} else {
+			d.sign = []string{hex.EncodeToString(g.r.Bytes(64))}
 		}
-		g.depN++
-		spec := fin.TxSpec{Asset: asset,
-			Inputs:  []fin.InSpec{{Kind: "deposit", Chain: hexH(common.EthereumAssetId), AKey: "0xkey" + asset[:6], TxID: fmt.Sprintf("0xdep%d", g.depN), DIndex: uint64(g.depN), Amount: units(amt)}},
-			Outputs: []fin.OutSpec{g.ownedOut(g.r.Intn(3), amt, 0)}}
-		g.byConstruction(spec)
-		g.known[asset] = true
-	case k < 4: // mint: outputs sum to the minted amount
-		amt := g.amount(30)
-		if room := g.room(asset); amt.Cmp(room) >= 0 {
-			return
+		d.kind = "invalid-" + d.kind
+		if g.admit(d) != nil && len(d.inputs) > 0 && d.inputs[0].Kind == "ord" {
+			g.se.c.Fail("invalid-admitted", "Validate admitted a transaction that creates value or is not signed by the owner", g.se.cs)
 		}
-		g.mintN++
-		half := new(big.Int).Div(amt, big.NewInt(2))
-		spec := fin.TxSpec{Asset: asset, Inputs: []fin.InSpec{{Kind: "mint", Batch: g.mintN, Amount: units(amt)}},
-			Outputs: []fin.OutSpec{g.ownedOut(g.r.Intn(3), half, 0), g.ownedOut(g.r.Intn(3), new(big.Int).Sub(amt, half), 1)}}
-		g.byConstruction(spec)
-	case k < 9: // transfer through Validate
-		if spec, ok := g.spend(asset, common.OutputTypeScript, "", nil); ok {
-			if !g.validated(spec) {
-				panic("valid transfer refused")
-			}
-		}
-	case k < 11: // withdrawal submission through Validate
-		if spec, ok := g.spend(asset, common.OutputTypeWithdrawalSubmit, "", nil); ok {
-			if !g.validated(spec) {
-				panic("valid withdrawal submission refused")
-			}
-		}
-	case k < 12: // withdrawal claim (XIN fee), by construction
-		if len(g.submits) > 0 {
-			if spec, ok := g.spend(g.assets[0], common.OutputTypeWithdrawalClaim, hex.EncodeToString(g.r.Bytes(70)), []string{g.submits[g.r.Intn(len(g.submits))]}); ok {
-				spec.Sign = nil
-				g.byConstruction(spec)
-			}
-		}
-	case k < 13: // invalid attempts: Validate must refuse them, nothing is admitted
-		if spec, ok := g.spend(asset, common.OutputTypeScript, "", nil); ok {
-			amt, _ := new(big.Int).SetString(spec.Outputs[0].Amount, 10)
-			if g.r.Bool() {
-				spec.Outputs[0].Amount = units(amt.Add(amt, big.NewInt(int64(g.r.Range(1, 1000))))) // outputs exceed inputs
-			} else {
-				spec.Sign = []string{hex.EncodeToString(g.r.Bytes(64))} // signed by a stranger
-			}
-			g.se.c.Count("invalid-attempt")
-			if g.validated(spec) {
-				g.se.c.Fail("invalid-admitted", "Validate admitted a transaction that creates value or is not signed by the owner", g.se.cs)
-			}
-			// the inputs stay unspent
-			for _, in := range spec.Inputs {
-				for _, p := range g.done {
-					if p.hash == in.Hash {
-						amt, _ := new(big.Int).SetString(p.spec.Outputs[in.Index].Amount, 10)
-						g.avail[asset] = append(g.avail[asset], out{in.Hash, in.Index, amt, g.ownerOf(p.spec, int(in.Index))})
-					}
-				}
-			}
-		}
-	default: // node pledge (XIN), by construction; one per history (a second pledge cannot be finalized while the first is pending)
-		if g.pledged {
-			return
-		}
-		if spec, ok := g.spend(g.assets[0], common.OutputTypeNodePledge, hex.EncodeToString(g.r.Bytes(64)), nil); ok {
-			spec.Sign = nil
-			g.byConstruction(spec)
-			g.pledged = true
-		}
+		return
+	}
+	if p := g.admit(d); p == nil {
+		panic("honest " + kind + " refused by Validate")
+	} else if kind == "pledge" {
+		g.pledged = true
 	}
 }
 
-func (g *Gen) ownerOf(spec fin.TxSpec, i int) int {
-	o := spec.Outputs[i]
-	for ai, sd := range g.seeds {
-		acc := fin.Account(sd)
-		if len(o.Keys) == 1 && o.Mask != "" {
-			mask := fin.K(o.Mask)
-			k := crypto.ViewGhostOutputKey(keyPtr(fin.K(o.Keys[0])), &acc.PrivateViewKey, &mask, uint64(i))
-			if *k == acc.PublicSpendKey {
-				return ai
+// hostile presents an honest draft with an extra output of type typ at index at; an accepted one is
+// finalized alone at once so that the oracle sees its effect (or its finalization fails)
+func (g *Gen) hostile(kind string, typ uint8, at int) {
+	if kind == "pledge" && g.pledged {
+		return
+	}
+	d, ok := g.honestDraft(kind)
+	for tries := 0; !ok && tries < 3; tries++ {
+		// nothing spendable (earlier accepted shapes consumed it): fund with a finalized deposit
+		asset := g.assets[0]
+		if kind == "transfer" || kind == "submit" {
+			asset = g.assets[g.r.Intn(len(g.assets))]
+		}
+		if fd, fok := g.depositDraft(asset); fok {
+			if p := g.admit(fd); p != nil {
+				g.finalize([]*ptx{p}, nil)
 			}
 		}
+		d, ok = g.honestDraft(kind)
 	}
-	return -1
+	if !ok {
+		g.se.c.Count("hostile-not-presented")
+		return
+	}
+	d, ok = withExtra(d, typ, at)
+	if !ok {
+		g.giveBack(d)
+		return
+	}
+	p := g.admit(d)
+	if p == nil {
+		g.se.c.Count("hostile-refused")
+		return
+	}
+	g.se.c.Count("hostile-accepted")
+	g.se.c.Count("accepted:" + d.kind)
+	if kind == "pledge" {
+		g.pledged = true
+	}
+	g.finalize([]*ptx{p}, nil)
+}
+
+func (g *Gen) finalize(batch []*ptx, overlap []string) {
+	var txs []string
+	for _, p := range batch {
+		txs = append(txs, p.hash)
+	}
+	txs = append(txs, overlap...)
+	node := g.nodes[g.r.Intn(len(g.nodes)-1)]
+	g.topo++
+	g.ts += uint64(g.r.Range(1, 1000)) * 1_000_000
+	rf := g.refs[node]
+	sp := &fin.SnapSpec{Node: node, Round: 1, RefSelf: rf[0], RefExt: rf[1], TS: g.ts, Txs: txs, Topo: g.topo}
+	class := g.se.Do(fin.OpSpec{Kind: "snap", Snap: sp})
+	in := map[string]bool{}
+	for _, p := range batch {
+		in[p.hash] = true
+	}
+	var rest []*ptx
+	for _, p := range g.pending {
+		if !in[p.hash] {
+			rest = append(rest, p)
+			continue
+		}
+		if class != "ok" {
+			if len(batch) > 1 {
+				rest = append(rest, p) // stays pending, retried later
+			}
+			continue // a lone member that cannot be finalized is dropped
+		}
+		p.node = node
+		g.done = append(g.done, p)
+		g.track(p.spec, p.hash)
+		if p.spec.Outputs[0].Type == common.OutputTypeWithdrawalSubmit {
+			g.submits = append(g.submits, p.hash)
+		}
+	}
+	g.pending = rest
+	if class != "ok" {
+		g.se.c.Count("snapshot-" + class)
+	}
 }
 
 func (g *Gen) snapshot(size int) {
@@ -514,58 +709,61 @@ func (g *Gen) snapshot(size int) {
 	}
 	var batch []*ptx
 	seen := map[string]bool{}
-	var txs []string
 	for _, i := range perm[:size] {
 		batch = append(batch, g.pending[i])
-		txs = append(txs, g.pending[i].hash)
 		seen[g.pending[i].hash] = true
 	}
-	// present members finalized earlier again (another node): they must not count twice
-	node := g.nodes[g.r.Intn(len(g.nodes)-1)]
+	// present members finalized earlier again: they must not count twice
+	var overlap []string
 	for n := g.r.Intn(3); n > 0 && len(g.done) > 0; n-- {
 		d := g.done[g.r.Intn(len(g.done))]
-		if !seen[d.hash] && (d.node != node || g.r.Chance(1, 10)) { // the same node again trips the uniqueness assertion
+		if !seen[d.hash] && g.r.Chance(2, 3) {
 			seen[d.hash] = true
-			txs = append(txs, d.hash)
+			overlap = append(overlap, d.hash)
 		}
 	}
-	g.topo++
-	g.ts += uint64(g.r.Range(1, 1000)) * 1_000_000
-	rf := g.refs[node]
-	sp := &fin.SnapSpec{Node: node, Round: 1, RefSelf: rf[0], RefExt: rf[1], TS: g.ts, Txs: txs, Topo: g.topo}
-	class := g.se.Do(fin.OpSpec{Kind: "snap", Snap: sp})
-	if class != "ok" {
-		// the same node presenting a member twice trips the uniqueness assertion; everything stays pending
-		g.se.c.Count("snapshot-" + class)
-		return
+	before := len(g.pending)
+	g.finalize(batch, overlap)
+	if len(g.pending) == before && len(overlap) > 0 {
+		g.finalize(batch, nil) // the same node presenting a member twice trips the uniqueness assertion
 	}
-	in := map[string]bool{}
-	for _, p := range batch {
-		in[p.hash] = true
-	}
-	var rest []*ptx
-	for _, p := range g.pending {
-		if !in[p.hash] {
-			rest = append(rest, p)
-			continue
-		}
-		p.node = node
-		g.done = append(g.done, p)
-		g.track(p.spec, p.hash)
-		if p.spec.Outputs[0].Type == common.OutputTypeWithdrawalSubmit {
-			g.submits = append(g.submits, p.hash)
-		}
-	}
-	g.pending = rest
 }
 
 func history(c *vh.Ctx, r *vh.Rand, steps, maxBatch int, kind string) {
 	se := &Session{c: c, st: fin.OpenStore()}
 	g := newGen(se, r)
+	hk := []string{"deposit", "mint", "transfer", "submit", "claim", "pledge"}
 	for i := 0; i < steps; i++ {
 		g.snapshot(r.Range(1, maxBatch))
+		for n := r.Intn(3); n > 0; n-- {
+			g.hostile(hk[r.Intn(len(hk))], typeCodes[r.Intn(len(typeCodes))], r.Intn(4))
+		}
 	}
 	se.Finish(kind)
+}
+
+// sweep: every kind x every extra output type code x every output index
+func sweep(c *vh.Ctx, r *vh.Rand, kinds []string, label string) {
+	se := &Session{c: c, st: fin.OpenStore()}
+	g := newGen(se, r)
+	g.snapshot(6)
+	g.snapshot(6) // funds in several assets, a finalized submission for the claims
+	for tries := 0; len(g.submits) == 0 && tries < 6; tries++ {
+		if d, ok := g.honestDraft("submit"); ok {
+			if p := g.admit(d); p != nil {
+				g.finalize([]*ptx{p}, nil)
+			}
+		}
+	}
+	for _, k := range kinds {
+		for _, t := range typeCodes {
+			for at := 0; at <= 3; at++ {
+				g.hostile(k, t, at)
+			}
+		}
+	}
+	g.snapshot(4)
+	se.Finish(label)
 }
 
 func replay(c *vh.Ctx, cs Case) {
@@ -579,7 +777,7 @@ func replay(c *vh.Ctx, cs Case) {
 
 func main() {
 	c := vh.Start("C17")
-	c.Rep.Rule = "a case is one finalized history on a fresh Badger store: LoadGenesis XIN allocations, then batches of deposits, mints, signed transfers and withdrawal submissions admitted through Validate, withdrawal claims and node pledges, finalized by WriteSnapshot (members of earlier snapshots presented again); invalid attempts must be refused by Validate; non-trivial = at least 3 finalized transactions; distinct = digest of the history"
+	c.Rep.Rule = "a case is one finalized history on a fresh Badger store: LoadGenesis (XIN allocations, node, custodian), then custodian-signed deposits and withdrawal claims, mints, signed transfers, withdrawal submissions and node pledges, EVERY one admitted only through Validate + LockInputs + WriteTransaction, finalized by WriteSnapshot in batches (members of earlier snapshots presented again); plus correctly signed, balanced transactions of every kind carrying at each output index an extra output of every type code (accepted ones are finalized at once), and unbalanced / foreign-signed attempts; non-trivial = at least 3 finalized transactions; distinct = digest of the history"
 	if c.Replay != "" {
 		var cs Case
 		c.ReplayCase(&cs)
@@ -587,12 +785,15 @@ func main() {
 		c.Finish()
 		return
 	}
-	// corpus: short histories, one long history with small batches, then random ones
+	// corpus: the full matrix kind x extra output type x index, split over three histories
+	sweep(c, c.Rng.Fork("sweep-a"), []string{"submit", "transfer"}, "sweep-submit-transfer")
+	sweep(c, c.Rng.Fork("sweep-b"), []string{"claim", "pledge"}, "sweep-claim-pledge")
+	sweep(c, c.Rng.Fork("sweep-c"), []string{"deposit", "mint"}, "sweep-deposit-mint")
 	history(c, c.Rng.Fork("short"), 2, 2, "history-short")
-	history(c, c.Rng.Fork("long"), c.Scale(15, 120), 4, "history-long")
-	n := c.Scale(7, 250)
+	history(c, c.Rng.Fork("long"), c.Scale(12, 100), 4, "history-long")
+	n := c.Scale(5, 200)
 	for i := 0; i < n; i++ {
-		history(c, c.Rng.Fork(fmt.Sprintf("h%d", i)), c.Rng.Range(3, 9), 8, "history")
+		history(c, c.Rng.Fork(fmt.Sprintf("h%d", i)), c.Rng.Range(3, 8), 8, "history")
 	}
 	c.Finish()
 }
